@@ -17,7 +17,7 @@ package main
 //   schedule must print the same line. Oracle: every reader hit equals the chain answer over the final tree; the
 //   sequential lookups that follow the conc op are judged strictly (visible after commit, nothing overwritten).
 //
-// c08race (free-running, race detector): `race <seed> <committers> <readers> <blocksPerRun> <keys> <millis> [sbhcommit]` is
+// c08race (free-running, race detector): `race <seed> <committers> <readers> <blocksPerRun> <keys> <millis> [latetxn]` is
 //   executed in a child process of this binary (built with -race): committers grow a block tree and commit
 //   concurrently, readers look up random (key, block) pairs at ancestors / in-flight blocks / descendants through
 //   StateCache, QueryBlockCache and BlockCache; every hit is compared with the chain answer over the blocks
@@ -30,6 +30,7 @@ import (
 	"math/rand"
 	"os"
 	"os/exec"
+	"runtime"
 	"sort"
 	"strconv"
 	"strings"
@@ -42,8 +43,43 @@ import (
 
 type c08Reader struct{ key, hash string }
 
+// c08Thread is one concurrent party of a `conc` op besides the committer (thread 0): a lookup (StateCache.Get), or a
+// WRITER to the committing block's own handle: `set:<key>:<val>` = BlockCache.Set, `tcommit:<tid>` = Commit of a
+// transaction cache that sits on the committing block (its pending sets / removals go through setValue).
+type c08Thread struct {
+	kind      string // "get", "set", "tcommit"
+	key, hash string // get
+	val       string // set
+	tid       string // tcommit
+}
+
+type c08Clone struct {
+	cstep int
+	tok   string
+}
+
 // c08RunConc is provided by suite_c08_hook.go when the tree under test has the yield hook.
-var c08RunConc func(w *scWorld, b *scBH, readers []c08Reader, sched string) (results []string, trace []string, order []string, err string)
+var c08RunConc func(w *scWorld, b *scBH, threads []c08Thread, sched string) (results []string, trace []string, clones []c08Clone, err string)
+
+func c08ParseThreads(spec string) []c08Thread {
+	var ts []c08Thread
+	if spec == "-" {
+		return ts
+	}
+	for _, s := range strings.Split(spec, ",") {
+		switch {
+		case strings.HasPrefix(s, "set:"):
+			p := strings.Split(s, ":")
+			ts = append(ts, c08Thread{kind: "set", key: p[1], val: p[2]})
+		case strings.HasPrefix(s, "tcommit:"):
+			ts = append(ts, c08Thread{kind: "tcommit", tid: s[len("tcommit:"):]})
+		default:
+			kv := strings.SplitN(s, "@", 2)
+			ts = append(ts, c08Thread{kind: "get", key: kv[0], hash: hashOf(kv[1])})
+		}
+	}
+	return ts
+}
 
 func (w *scWorld) stepConc(i int, op string) (out string, retry bool) {
 	w.opi, w.op = i, op
@@ -55,13 +91,7 @@ func (w *scWorld) stepConc(i int, op string) (out string, retry bool) {
 	if b == nil {
 		panic("unknown block cache handle in op: " + op)
 	}
-	var readers []c08Reader
-	if f[3] != "-" {
-		for _, s := range strings.Split(f[3], ",") {
-			kv := strings.SplitN(s, "@", 2)
-			readers = append(readers, c08Reader{kv[0], hashOf(kv[1])})
-		}
-	}
+	threads := c08ParseThreads(f[3])
 	sched := f[4]
 	if sched == "-" {
 		sched = ""
@@ -70,22 +100,102 @@ func (w *scWorld) stepConc(i int, op string) (out string, retry bool) {
 		w.fail("the tree under test has no statecache yield hook (core/statecache/verif_yield.go): schedules cannot be driven")
 		return "nohook", false
 	}
-	results, trace, order, err := c08RunConc(w, b, readers, sched)
+	results, trace, clones, err := c08RunConc(w, b, threads, sched)
 	if err != "" {
 		w.fail("scheduler: %s", err)
 		return "sched-error", false
 	}
-	if f[2] != "-" && strings.Join(order, ",") != f[2] {
-		return "", true
+	// Specification of a write racing with the block's commit: Commit locks the block cache for its whole duration
+	// (from before its first shared-map access to its return), so a write issued while the commit is in flight waits
+	// and lands in the fresh pre-commit map after the commit returned. Either way the handle must show it afterwards
+	// (own writes first).
+	applyWrite := func(th c08Thread) {
+		switch th.kind {
+		case "set":
+			b.pending[th.key] = scEntry{val: th.val}
+		case "tcommit":
+			t := w.th[th.tid]
+			for k, e := range t.pending {
+				b.pending[k] = e
+			}
+			t.pending = map[string]scEntry{}
+		}
+	}
+	var late []c08Thread
+	for _, t := range trace {
+		var tidx int
+		fmt.Sscanf(t, "%d:", &tidx)
+		if tidx != 0 && threads[tidx-1].kind != "get" {
+			late = append(late, threads[tidx-1])
+		}
+	}
+	// order in which commit() visited the snapshot's keys: key i is fetched (and its value cloned) in committer step 2+3i
+	if f[2] != "-" {
+		type kp struct {
+			key string
+			pos int
+		}
+		var kps []kp
+		used := map[int]bool{}
+		var tombs []string
+		for k, e := range b.pending {
+			if e.tomb {
+				tombs = append(tombs, k)
+				continue
+			}
+			pos := -1
+			for _, c := range clones {
+				if c.tok == e.val && (c.cstep-2)%3 == 0 {
+					pos = (c.cstep - 2) / 3
+				}
+			}
+			kps = append(kps, kp{k, pos})
+			used[pos] = true
+		}
+		sort.Strings(tombs)
+		for _, k := range tombs {
+			p := 0
+			for used[p] {
+				p++
+			}
+			used[p] = true
+			kps = append(kps, kp{k, p})
+		}
+		sort.Slice(kps, func(i, j int) bool { return kps[i].pos < kps[j].pos })
+		var order, want []string
+		for _, x := range kps {
+			order = append(order, x.key)
+		}
+		for _, k := range strings.Split(f[2], ",") {
+			if _, ok := b.pending[k]; ok {
+				want = append(want, k)
+			}
+		}
+		if _, dup := w.T[b.hash]; !dup && strings.Join(order, ",") != strings.Join(want, ",") {
+			return "", true
+		}
 	}
 	w.recordCommit(b)
+	for _, th := range late {
+		applyWrite(th)
+	}
 	parts := []string{"c=" + results[0]}
 	strict := w.strict
 	w.strict = false // a concurrent lookup may miss; only hits are judged
-	for j, r := range readers {
+	nget := 0
+	for j, th := range threads {
 		res := results[j+1]
+		if th.kind != "get" {
+			parts = append(parts, fmt.Sprintf("w%d=%s", j+1, res))
+			if res != "ok" {
+				w.fail("writer %d returned %s", j+1, res)
+			}
+			w.tags["conc:writer:"+th.kind] = true
+			continue
+		}
+		nget++
 		parts = append(parts, fmt.Sprintf("r%d=%s", j+1, strings.Replace(res, " ", ":", 1)))
-		w.judge(res, w.expectState(r.key, r.hash), r.key, r.hash, true)
+		w.judge(res, w.expectState(th.key, th.hash), th.key, th.hash, true)
 	}
 	w.strict = strict
 	if results[0] != "ok" {
@@ -100,7 +210,7 @@ func (w *scWorld) stepConc(i int, op string) (out string, retry bool) {
 	if sw >= 2 {
 		w.tags["conc:interleaved"] = true
 	}
-	w.tags[fmt.Sprintf("conc:readers=%d", len(readers))] = true
+	w.tags[fmt.Sprintf("conc:readers=%d", nget)] = true
 	w.mutations += sw
 	return strings.Join(parts, " ") + " trace=" + strings.Join(trace, ","), false
 }
@@ -151,6 +261,10 @@ type c08Scn struct {
 	preLook  []string // sequential lookups before the concurrent phase (create memos)
 	readers  []c08Reader
 	extraOps []string
+	// a writer to the committing block's own handle, concurrent with its commit: "set:<k>:<v>" (BlockCache.Set),
+	// "tset:<k>:<v>" / "trem:<k>" (a transaction cache on the block holding that write is committed concurrently)
+	writer string
+	wFirst bool // a key added by the writer is visited first by commit()
 }
 
 func (s c08Scn) ops(sched string) []string {
@@ -182,23 +296,54 @@ func (s c08Scn) ops(sched string) []string {
 		}
 	}
 	o = append(o, s.preLook...)
+	okeys := append([]string(nil), s.bKeys...)
+	var rs []string
+	for _, r := range s.readers {
+		rs = append(rs, r.key+"@"+r.hash)
+	}
+	if s.writer != "" {
+		p := strings.Split(s.writer, ":")
+		switch p[0] {
+		case "set":
+			rs = append(rs, s.writer)
+		case "tset":
+			o = append(o, "txn tw bb", fmt.Sprintf("tset tw %s %s", p[1], p[2]))
+			rs = append(rs, "tcommit:tw")
+		case "trem":
+			o = append(o, "txn tw bb", "trem tw "+p[1])
+			rs = append(rs, "tcommit:tw")
+		}
+		known := false
+		for _, k := range okeys {
+			if k == p[1] {
+				known = true
+			}
+		}
+		if !known {
+			if s.wFirst {
+				okeys = append([]string{p[1]}, okeys...)
+			} else {
+				okeys = append(okeys, p[1])
+			}
+		}
+	}
 	order := "-"
-	if len(s.bKeys) > 1 {
-		order = strings.Join(s.bKeys, ",")
+	if len(okeys) > 1 {
+		order = strings.Join(okeys, ",")
 	}
 	rd := "-"
-	if len(s.readers) > 0 {
-		var rs []string
-		for _, r := range s.readers {
-			rs = append(rs, r.key+"@"+r.hash)
-		}
+	if len(rs) > 0 {
 		rd = strings.Join(rs, ",")
 	}
 	if sched == "" {
 		sched = "-"
 	}
 	o = append(o, fmt.Sprintf("conc bb %s %s %s", order, rd, sched))
-	// observe the final state strictly: every key at every block, twice (the second read sees the memos of the first)
+	// observe the final state strictly: through the committed block's own handle (own writes first — also the writes
+	// that raced with the commit), then every key at every block, twice (the second read sees the memos of the first)
+	if s.writer != "" {
+		o = append(o, "bget bb k1", "bget bb k2", "txn tz bb", "tget tz k1", "tget tz k2")
+	}
 	blocks := []string{"B", "D", "A"}
 	if s.deep {
 		blocks = []string{"B", "D2", "D", "A2", "A"}
@@ -308,6 +453,33 @@ func c08Scenarios1() []c08Scn {
 	return out
 }
 
+// one committing block with a concurrent WRITER to its own handle (and optionally one lookup)
+func c08ScenariosW(withReaders bool) []c08Scn {
+	var out []c08Scn
+	type wv struct {
+		w      string
+		wFirst bool
+	}
+	ws := []wv{{"set:k1:c1", false}, {"set:k2:c2", false}, {"set:k2:c2", true}, {"tset:k2:c2", false}, {"trem:k1", false}, {"tset:k1:c1", false}}
+	for _, x := range ws {
+		for _, a := range [][]string{{"k1"}, {"k1", "k2"}} {
+			base := c08Scn{aKeys: a, bKeys: []string{"k1"}, writer: x.w, wFirst: x.wFirst}
+			out = append(out, base)
+			if withReaders {
+				wk := strings.Split(x.w, ":")[1]
+				for _, h := range []string{"B", "D"} {
+					sc := base
+					sc.readers = []c08Reader{{wk, h}}
+					out = append(out, sc)
+				}
+			}
+		}
+	}
+	// a block that writes nothing itself
+	out = append(out, c08Scn{aKeys: []string{"k1"}, bKeys: nil, writer: "set:k1:c1"})
+	return out
+}
+
 func c08Scenarios2() []c08Scn {
 	var out []c08Scn
 	hs := []string{"A", "B", "D"}
@@ -330,6 +502,9 @@ func exhC08(tier string, emit func([]string)) {
 		return
 	}
 	for _, s := range c08Scenarios1() {
+		c08Explore(s, 20000, emit)
+	}
+	for _, s := range c08ScenariosW(tier == "thorough") {
 		c08Explore(s, 20000, emit)
 	}
 	if tier == "thorough" {
@@ -382,10 +557,22 @@ func genC08(r *rand.Rand, tier string, idx int) []string {
 	for i, n := 0, 1+r.Intn(2); i < n; i++ {
 		s.readers = append(s.readers, c08Reader{fmt.Sprintf("k%d", 1+r.Intn(2)), blocks[r.Intn(len(blocks))]})
 	}
+	if r.Intn(3) == 0 {
+		wk := fmt.Sprintf("k%d", 1+r.Intn(2))
+		s.writer = []string{"set:" + wk + ":c7", "tset:" + wk + ":c8", "trem:" + wk}[r.Intn(3)]
+		s.wFirst = r.Intn(2) == 0
+		if len(s.readers) > 1 {
+			s.readers = s.readers[:1]
+		}
+	}
 	var sb strings.Builder
 	// bursty random schedule
 	for sb.Len() < 48 {
-		t := r.Intn(len(s.readers) + 1)
+		nt := len(s.readers) + 1
+		if s.writer != "" {
+			nt++
+		}
+		t := r.Intn(nt)
 		for j, m := 0, 1+r.Intn(3); j < m; j++ {
 			sb.WriteByte(byte('0' + t))
 		}
@@ -410,7 +597,7 @@ func runC08Child(ops []string, needRace bool) CaseResult {
 		if f[0] != "race" || (len(f) != 7 && len(f) != 8) {
 			panic("malformed op: " + op)
 		}
-		sbhCommit := len(f) == 8 && f[7] == "sbhcommit"
+		lateTxn := len(f) == 8 && f[7] == "latetxn"
 		exe, err := os.Executable()
 		if err != nil {
 			panic(err)
@@ -439,10 +626,11 @@ func runC08Child(ops []string, needRace bool) CaseResult {
 			}
 			res.Fails = append(res.Fails, fmt.Sprintf("op %d (%s): the race detector reported a data race:\n%s", i, op, rep))
 			out = "race"
-			// narrow matcher of the open finding C08-setblockhash-commit-race: the case lets SetBlockHash overlap Commit,
-			// and the (single: halt_on_error) report is exactly SetBlockHash's write against commit()'s own read
-			if sbhCommit && len(res.Fails) == 1 && c08IsSbhCommitRace(se.String()) {
-				res.Finding = findingSbhCommit
+			// narrow matcher of the open finding C08-stats-counter-race: the case lets a TransactionCache.Commit overlap
+			// the block's Commit, and the single report (halt_on_error) is commit()'s plain read of the block's hit/miss
+			// counters against the atomic add of TransactionCache.Commit -> addStats
+			if needRace && lateTxn && len(res.Fails) == 1 && c08IsStatsRace(se.String()) {
+				res.Finding = findingStatsRace
 			} else {
 				res.Finding = ""
 			}
@@ -463,32 +651,35 @@ func runC08Child(ops []string, needRace bool) CaseResult {
 	return res
 }
 
-const findingSbhCommit = "C08-setblockhash-commit-race"
+const findingStatsRace = "C08-stats-counter-race"
 
-// c08IsSbhCommitRace: the two stacks of the report are BlockCache.SetBlockHash (top frame of one) and
-// StateCache.commit (top frame of the other), nothing else
-func c08IsSbhCommitRace(report string) bool {
-	var tops []string
-	lines := strings.Split(report, "\n")
-	for i, l := range lines {
+func c08IsStatsRace(report string) bool {
+	// split the report into its two access stacks
+	var stacks []string
+	cur := -1
+	for _, l := range strings.Split(report, "\n") {
 		t := strings.TrimSpace(l)
-		if (strings.HasPrefix(t, "Write at") || strings.HasPrefix(t, "Read at") || strings.HasPrefix(t, "Previous write at") || strings.HasPrefix(t, "Previous read at")) && i+1 < len(lines) {
-			tops = append(tops, strings.TrimSpace(lines[i+1]))
+		if strings.HasPrefix(t, "Write at") || strings.HasPrefix(t, "Read at") || strings.HasPrefix(t, "Previous write at") || strings.HasPrefix(t, "Previous read at") {
+			stacks = append(stacks, "")
+			cur = len(stacks) - 1
+			continue
+		}
+		if strings.HasPrefix(t, "Goroutine ") {
+			cur = -1
+		}
+		if cur >= 0 {
+			stacks[cur] += t + "\n"
 		}
 	}
-	if len(tops) != 2 {
+	if len(stacks) != 2 {
 		return false
 	}
-	sbh, cm := 0, 0
-	for _, t := range tops {
-		if strings.Contains(t, "statecache.(*BlockCache).SetBlockHash()") {
-			sbh++
-		}
-		if strings.Contains(t, "statecache.(*StateCache).commit()") {
-			cm++
-		}
+	isCommitTop := func(s string) bool { return strings.HasPrefix(s, "github.com/0chain/common/core/statecache.(*StateCache).commit()") }
+	isStatsAdd := func(s string) bool {
+		return strings.HasPrefix(s, "sync/atomic.AddInt64()") &&
+			(strings.Contains(s, "statecache.(*TransactionCache).Commit()") || strings.Contains(s, "statecache.(*BlockCache).addStats()"))
 	}
-	return sbh == 1 && cm == 1
+	return (isCommitTop(stacks[0]) && isStatsAdd(stacks[1])) || (isCommitTop(stacks[1]) && isStatsAdd(stacks[0]))
 }
 
 type c08rBlock struct {
@@ -529,7 +720,9 @@ func (s *c08rStore) chain(key, hash string) (string, bool) {
 func c08RaceChild(args []string) {
 	atoi := func(s string) int { n, _ := strconv.Atoi(s); return n }
 	seed, nC, nR, perRun, nKeys, millis := int64(atoi(args[0])), atoi(args[1]), atoi(args[2]), atoi(args[3]), atoi(args[4]), atoi(args[5])
-	sbhCommit := len(args) > 6 && args[6] == "sbhcommit"
+	// under the race detector a TransactionCache.Commit may overlap the block's Commit only in cases flagged `latetxn`
+	// (open finding C08-stats-counter-race would otherwise halt every child at its first report)
+	lateTxn := !raceEnabled || (len(args) > 6 && args[6] == "latetxn")
 	if perRun > 150 {
 		perRun = 150 // stay below the per-key capacity of 200 (entries per key <= blocks per run)
 	}
@@ -612,8 +805,8 @@ func c08RaceChild(args []string) {
 					st.mu.Unlock()
 					var sbhDone chan struct{}
 					if r.Intn(4) == 0 {
-						// the miner learns the hash late: SetBlockHash concurrently with lookups through the block's caches
-						// (and, with the case flag `sbhcommit`, also overlapping the block's Commit)
+						// the miner learns the hash late: SetBlockHash concurrently with lookups through the block's caches and
+						// with the block's Commit
 						sbhDone = make(chan struct{})
 						wg.Add(1)
 						go func() { defer wg.Done(); bc.SetBlockHash(hash); close(sbhDone) }()
@@ -627,11 +820,49 @@ func c08RaceChild(args []string) {
 						wg.Add(1)
 						go func() { defer wg.Done(); bc2.Commit() }()
 					}
-					if sbhDone != nil && !sbhCommit {
-						<-sbhDone
+					_ = sbhDone
+					// a WRITER to this block's own handle racing with its Commit: BlockCache.Set, or the Commit of a
+					// transaction cache on the block carrying a set. Keys "w…" are private to the block (never looked up
+					// through the chain), so the block tree of the chain oracle is unaffected.
+					var lateDone chan struct{}
+					lateKey, lateVal := "w"+hash, fmt.Sprintf("%02x%04xee", c, n&0xffff)
+					if r.Intn(2) == 0 {
+						lateDone = make(chan struct{})
+						viaTxn := lateTxn && r.Intn(2) == 0
+						go func() {
+							defer close(lateDone)
+							if viaTxn {
+								t2 := statecache.NewTransactionCache(bc)
+								t2.Set(lateKey, &bval{b: unhx(lateVal)})
+								t2.Commit()
+							} else {
+								bc.Set(lateKey, &bval{b: unhx(lateVal)})
+							}
+						}()
+						if r.Intn(2) == 0 {
+							runtime.Gosched()
+						}
 					}
 					bc.Commit()
 					atomic.AddInt64(&commits, 1)
+					if lateDone != nil {
+						<-lateDone
+						// every write the handle accepted is visible through the handle (published or pending)
+						for _, via := range []string{"block", "txn"} {
+							var got statecache.Value
+							var ok bool
+							if via == "block" {
+								got, ok = bc.Get(lateKey)
+							} else {
+								got, ok = tc.Get(lateKey)
+							}
+							if !ok {
+								fail("a write to block %s's own cache that raced with its Commit is lost: lookup of %s through its %s cache missed", hash, lateKey, via)
+							} else if scValTok(got) != lateVal {
+								fail("a write to block %s's own cache that raced with its Commit: lookup of %s through its %s cache returned %s, want %s", hash, lateKey, via, scValTok(got), lateVal)
+							}
+						}
+					}
 					st.mu.Lock()
 					st.done[hash] = true
 					st.mu.Unlock()
@@ -686,9 +917,7 @@ func c08RaceChild(args []string) {
 						case 4:
 							got, ok = hd.tc.Get(key)
 						default:
-							if sbhCommit {
-								hd.bc.SetBlockHash(hash)
-							}
+							hd.bc.SetBlockHash(hash)
 							got, ok = statecache.NewTransactionCache(hd.bc).Get(key)
 						}
 					case v%3 == 0:
@@ -763,8 +992,8 @@ func genC08Race(r *rand.Rand, tier string, idx int) []string {
 	nC := []int{1, 2, 4, 8}[idx%4]
 	nR := []int{8, 4, 8, 2}[idx%4]
 	op := fmt.Sprintf("race %d %d %d %d %d %d", r.Intn(1<<30), nC, nR, 60+r.Intn(90), 2+r.Intn(4), ms)
-	if idx%6 == 5 {
-		op += " sbhcommit" // SetBlockHash may overlap Commit (open finding C08-setblockhash-commit-race)
+	if idx%4 == 3 {
+		op += " latetxn" // a TransactionCache.Commit may overlap the block's Commit (open finding C08-stats-counter-race)
 	}
 	return []string{op}
 }
@@ -773,7 +1002,7 @@ func init() {
 	children["c08race"] = c08RaceChild
 	register(&Suite{
 		Name: "c08",
-		Rule: "one committing block (0..2 keys, optional removal, key's version map present or created by the commit) with 1..2 concurrent StateCache.Get at an ancestor / the block itself / a descendant committed earlier; schedules driven through the verif yield hook at every shared-map access; exhaustive enumeration of all schedules for every 1-reader scenario (thorough: 2-reader scenarios), random bursty schedules over deeper trees with pre-existing memos; reader hits judged against the chain oracle over the final tree, sequential lookups afterwards judged strictly (visible after commit); non-trivial = at least two context switches",
+		Rule: "one committing block (0..2 keys, optional removal, key's version map present or created by the commit) with 1..2 concurrent StateCache.Get at an ancestor / the block itself / a descendant committed earlier, and/or a concurrent WRITER to the committing block's own handle (BlockCache.Set, or TransactionCache.Commit carrying a set / removal) that either lands before commit's snapshot or waits on the block cache's mutex until the commit returns; schedules driven through the verif yield hook at every shared-map access; exhaustive enumeration of all schedules for every 1-reader scenario (thorough: 2-reader scenarios), random bursty schedules over deeper trees with pre-existing memos; reader hits judged against the chain oracle over the final tree, sequential lookups afterwards judged strictly (visible after commit); non-trivial = at least two context switches",
 		Gen:  genC08,
 		Run:  runC08,
 		Exhaustive: exhC08,
